@@ -692,6 +692,11 @@ func (f *Fam) Gen(r *rand.Rand, i int) string {
 		f.gen.afterParamChange = false
 		if r.Intn(12) == 0 {
 			a := hx(Keys[r.Intn(NKeys)].Addr)
+			if r.Intn(5) == 0 {
+				// another module rewards a module account - the fee collector, the DAO - also before that account was first used
+				a = []string{feeAddr, daoAddr}[r.Intn(2)]
+				f.extra["c04:award-to-a-module-account"]++
+			}
 			if r.Intn(60) == 0 {
 				return fmt.Sprintf("award %s -5", a) // BeginBlock will panic on it
 			}
